@@ -731,7 +731,10 @@ pub fn operation_modulus(left: &Data, right: &Data) -> Data {
 
 /// Implements a "<" (less) operation on Data items.
 pub fn operation_less(left: &crate::datamodel::Data, right: &crate::datamodel::Data) -> crate::datamodel::Data {
-    if left.is_numeric() && right.is_numeric() {
+    if let (Data::Integer(a), Data::Integer(b)) = (left, right) {
+        // exact: as_number() loses precision beyond 2^53
+        Data::Boolean(a < b)
+    } else if left.is_numeric() && right.is_numeric() {
         Data::Boolean(left.as_number() < right.as_number())
     } else {
         match (left, right) {
@@ -749,7 +752,10 @@ pub fn operation_less(left: &crate::datamodel::Data, right: &crate::datamodel::D
 
 /// Implements a "<=" (less or equal) operation on Data items.
 pub fn operation_less_equal(left: &crate::datamodel::Data, right: &crate::datamodel::Data) -> crate::datamodel::Data {
-    if left.is_numeric() && right.is_numeric() {
+    if let (Data::Integer(a), Data::Integer(b)) = (left, right) {
+        // exact: as_number() loses precision beyond 2^53
+        Data::Boolean(a <= b)
+    } else if left.is_numeric() && right.is_numeric() {
         Data::Boolean(left.as_number() <= right.as_number())
     } else {
         match (left, right) {
@@ -767,7 +773,10 @@ pub fn operation_less_equal(left: &crate::datamodel::Data, right: &crate::datamo
 
 /// Implements a ">" (greater) operation on Data items.
 pub fn operation_greater(left: &crate::datamodel::Data, right: &crate::datamodel::Data) -> crate::datamodel::Data {
-    if left.is_numeric() && right.is_numeric() {
+    if let (Data::Integer(a), Data::Integer(b)) = (left, right) {
+        // exact: as_number() loses precision beyond 2^53
+        Data::Boolean(a > b)
+    } else if left.is_numeric() && right.is_numeric() {
         Data::Boolean(left.as_number() > right.as_number())
     } else {
         match (left, right) {
@@ -781,7 +790,10 @@ pub fn operation_greater(left: &crate::datamodel::Data, right: &crate::datamodel
 
 /// Implements a ">=" (greater or equal) operation on Data items.
 pub fn operation_greater_equal(left: &Data, right: &Data) -> Data {
-    if left.is_numeric() && right.is_numeric() {
+    if let (Data::Integer(a), Data::Integer(b)) = (left, right) {
+        // exact: as_number() loses precision beyond 2^53
+        Data::Boolean(a >= b)
+    } else if left.is_numeric() && right.is_numeric() {
         Data::Boolean(left.as_number() >= right.as_number())
     } else {
         match (left, right) {
